@@ -38,12 +38,13 @@ theorem nlt_finish (lg lg' : Log) (n : Nat) (i : Rid) (a : A) (p : Pkt) (grp inb
   refine ⟨?_, ?_, ?_, ?_, hwb⟩
   rotate_left 3
   · intro x hx' hxr hst
-    rcases h.nz x hx' hxr hst with e | ⟨pk, grp, e, e2⟩ | ⟨q, e, _⟩
+    rcases h.nz x hx' hxr hst with e | ⟨pk, grp, e, e2⟩ | ⟨w, q, e | e, _⟩
     · simp [remFor] at e
     · simp only [PC.action.injEq] at e
       left
       simp only [remFor]
       rw [← e2, ← e.1, hsrc1]; exact hlt
+    · cases e
     · cases e
   · intro q hq
     obtain ⟨u, o⟩ := h.inb q hq
@@ -59,12 +60,12 @@ theorem nlt_finish (lg lg' : Log) (n : Nat) (i : Rid) (a : A) (p : Pkt) (grp inb
     · obtain ⟨s1, s2, s3, s4⟩ := hx.2 x.p e
       rcases h.req x hx' hxr with hr | ⟨v, e1, e2, _⟩
       rotate_left
-      · exact Or.inr ⟨v, e1, by rw [s3]; exact e2, by simp only [remFor]; exact hsrc2 x.p e⟩
+      · exact Or.inr ⟨v, e1, ra_ext lg lg' p.id hx x.p v e2, by simp only [remFor]; exact hsrc2 x.p e⟩
       left
       simp only [ReqA, remFor] at hr ⊢
       rw [hsrc2 x.p e]
       cases hst : x.st with
-      | direct w => rw [hst] at hr; exact hr
+      | direct w => trivial
       | cells cs =>
         rw [hst] at hr
         obtain ⟨qs, a1, a2, a3, a4, a5, a6, a7⟩ := hr
@@ -86,10 +87,11 @@ theorem nlt_finish_echo (lg : Log) (n : Nat) (i : Rid) (a : A) (p : Pkt) (grp in
     · left; simpa [ReqA, remFor, remOps] using hr
     · exact Or.inr ⟨v, e1, e2, rfl⟩
   · intro x hx hxr hst
-    rcases h.nz x hx hxr hst with e | ⟨pk, grp', e, e2⟩ | ⟨q, e, _⟩
+    rcases h.nz x hx hxr hst with e | ⟨pk, grp', e, e2⟩ | ⟨w, q, e | e, _⟩
     · simp [remFor] at e
     · simp only [PC.action.injEq] at e
-      exact Or.inr (Or.inr ⟨p, rfl, by rw [e.1]; exact e2⟩)
+      exact Or.inr (Or.inr ⟨none, p, Or.inl rfl, by rw [e.1]; exact e2⟩)
+    · cases e
     · cases e
   · intro w q hm; simp at hm
 
@@ -110,12 +112,14 @@ theorem nlt_link (lg : Log) (n : Nat) (i : Rid) (a : A) (inbox : List Pkt) (p t 
   · intro y hy hyr hst
     rw [hreqs] at hy
     rcases hcases y (nodup_p _ hnd) hy with ⟨h1, h2⟩ | ⟨x, h1, h2, h3⟩
-    · rcases h.nz y h1 hyr hst with e | ⟨pk, grp, e, _⟩ | ⟨q, e, _⟩
+    · rcases h.nz y h1 hyr hst with e | ⟨pk, grp, e, _⟩ | ⟨w, q, e | e, _⟩
       · left
         rw [remFor_next] at e
         simpa [Ne.symm h2] using e
       · cases e
       · simp at e
+      · simp only [PC.emit.injEq, List.cons.injEq, Op.link.injEq] at e
+        exact absurd (e.1.1.trans e.1.2.symm) hpt
     · have hxe : x = ⟨p, i, .cells cs⟩ := mem_unique a.reqs x _ p hnd h1 hX (by simp [idsR, h2]) (by simp [idsR])
       subst hxe
       rw [h3] at hst
@@ -140,11 +144,11 @@ theorem nlt_link (lg : Log) (n : Nat) (i : Rid) (a : A) (inbox : List Pkt) (p t 
       subst h3
       rcases h.req _ h1 rfl with hr | ⟨v, _, _, e3⟩
       rotate_left
-      · simp [remFor, remOps] at e3
+      · simp [remFor, remOps, hpt] at e3
       left
       simp only [ReqA] at hr ⊢
       rw [remFor_next] at hr
-      simp only [if_true] at hr
+      simp only [if_true, hpt, if_false] at hr
       obtain ⟨qs, a1, a2, a3, a4, a5, a6', a7⟩ := hr
       have ht := a7 t (by simp)
       refine ⟨qs ++ [t], all2_append _ _ _ _ _ a1 ⟨rfl, ht.1, ht.2⟩, ?_, a3, a4, a5, Or.inr ?_, ?_⟩
@@ -153,5 +157,50 @@ theorem nlt_link (lg : Log) (n : Nat) (i : Rid) (a : A) (inbox : List Pkt) (p t 
         · simp at e
         · rw [allLinked_append, e]; rfl
       · intro t' ht'; exact a7 t' (by simp [ht'])
+
+/-- `Link(p, p)` – the action returned its input packet –: the tracer ignores the call, nothing is registered -/
+theorem nlt_link_self (lg : Log) (n : Nat) (i : Rid) (a : A) (inbox : List Pkt) (p : Pid) (w : Option Wid) (q : Pkt)
+    (h : NLt lg n i { inbox := inbox, pc := .emit [.link p p, .write w q] } a) :
+    NLt lg n i { inbox := inbox, pc := .emit [.write w q] } a := by
+  have hrem : ∀ p', remFor (.emit [.write w q]) p' = remFor (.emit [.link p p, .write w q]) p' := by
+    intro p'; simp only [remFor, remOps]; split <;> simp
+  refine ⟨h.inb, h.own, ?_, ?_, ?_⟩
+  · intro x hx hxr
+    rcases h.req x hx hxr with hr | ⟨v, e1, e2, e3⟩
+    · left; simp only [ReqA] at hr ⊢; rw [hrem]; exact hr
+    · exact Or.inr ⟨v, e1, e2, by rw [hrem]; exact e3⟩
+  · intro x hx hxr hst
+    rcases h.nz x hx hxr hst with e | ⟨pk, grp, e, _⟩ | ⟨w', q', e | e, e2⟩
+    · left; rw [hrem]; exact e
+    · cases e
+    · simp at e
+    · simp only [PC.emit.injEq, List.cons.injEq, Op.write.injEq, and_true] at e
+      exact Or.inr (Or.inr ⟨w, q, Or.inl rfl, by rw [e.2.2]; exact e2⟩)
+  · intro w' q' hm
+    exact h.wb w' q' (List.mem_cons_of_mem _ hm)
+
+/-- the action returned its input packet: the program is `Link(p, p); Write(w, p)` -/
+theorem nlt_finish_same (lg : Log) (n : Nat) (i : Rid) (a : A) (p : Pkt) (grp inbox : List Pkt) (w : Wid) (q : Pkt)
+    (hq : q.id = p.id) (hw : w < maxW)
+    (h : NLt lg n i { inbox := inbox, pc := .action p grp } a) :
+    NLt lg n i { inbox := inbox, pc := .emit [.link p.id q.id, .write (some w) q] } a := by
+  have hrem : ∀ p', remFor (.emit [.link p.id q.id, .write (some w) q]) p' = [] := by
+    intro p'; simp only [remFor, remOps, hq]; split <;> simp
+  refine ⟨h.inb, h.own, ?_, ?_, ?_⟩
+  · intro x hx hxr
+    rcases h.req x hx hxr with hr | ⟨v, e1, e2, _⟩
+    · left; simp only [ReqA] at hr ⊢; rw [hrem]; simpa [remFor] using hr
+    · exact Or.inr ⟨v, e1, e2, hrem _⟩
+  · intro x hx hxr hst
+    rcases h.nz x hx hxr hst with e | ⟨pk, grp', e, e2⟩ | ⟨w', q', e | e, _⟩
+    · simp [remFor] at e
+    · simp only [PC.action.injEq] at e
+      refine Or.inr (Or.inr ⟨some w, q, Or.inr ?_, by rw [hq, e.1]; exact e2⟩)
+      rw [hq, ← e2, ← e.1]
+    · cases e
+    · cases e
+  · intro w' q' hm
+    simp only [List.mem_cons, Op.write.injEq, Option.some.injEq, List.mem_nil_iff, or_false, reduceCtorEq, false_or] at hm
+    rw [hm.1]; exact hw
 
 end Uniflow.FlowM
